@@ -9,6 +9,7 @@
 #include <stdbool.h>
 #include <stdarg.h>
 #include <pthread.h>
+#include <stdatomic.h>
 
 /* ---- thread roles ---- */
 enum { ROLE_APP = 0, ROLE_RECEIVER = 1, ROLE_AUTOFLUSH = 2, ROLE_HEARTBEAT = 3, ROLE_WORKER = 4, ROLE_HARNESS = 5 };
@@ -36,9 +37,9 @@ int __real_pthread_join(pthread_t, void **);
 int __real_usleep(unsigned int);
 
 /* ---- monitors (mon.c) ---- */
-extern volatile int mon_armed;        /* contract + lockset monitors active */
-extern volatile int mon_perturb;      /* per-mille probability of a yield/sleep at lock ops */
-extern volatile int mon_contracts_on;
+extern atomic_int mon_armed;        /* contract + lockset monitors active */
+extern atomic_int mon_perturb;      /* per-mille probability of a yield/sleep at lock ops */
+extern atomic_int mon_contracts_on;
 void mon_init(uint64_t seed);
 int  mon_held_count(void);            /* locks held by the calling thread */
 void mon_held_describe(char *dst, size_t n);
@@ -49,12 +50,12 @@ int  mon_receiver_blocked_by_me(void);
 int  mon_live_lib_threads(void);      /* library threads created and not yet joined */
 void mon_thread_summary(void);
 void mon_lock_names_init(void);
-extern volatile long mon_contract_checks, mon_contract_viol, mon_lock_ops;
+extern atomic_long mon_contract_checks, mon_contract_viol, mon_lock_ops;
 void hx_violation(const char *cls, const char *fmt, ...) __attribute__((format(printf, 2, 3)));
-extern volatile int hx_violations;
+extern atomic_int hx_violations;
 
 /* ---- virtual time (mon.c) ---- */
-extern volatile int64_t vt_usec;      /* virtual microseconds since process start */
+extern _Atomic int64_t vt_usec;      /* virtual microseconds since process start */
 void vt_advance_us(int64_t us);
 
 /* ---- simulated bus (simbus.c) ---- */
